@@ -255,6 +255,14 @@ fn funds_for(w: &World, s: &mut Src, prof: &Profile, named: &[(String, u128)], p
     out
 }
 
+/// the asset of the other kind with the same spelling
+pub fn flip_kind(a: &AssetInfo) -> AssetInfo {
+    match a {
+        AssetInfo::NativeToken { denom } => AssetInfo::Token { contract_addr: denom.clone() },
+        AssetInfo::Token { contract_addr } => AssetInfo::NativeToken { denom: contract_addr.clone() },
+    }
+}
+
 fn other_asset(w: &World, s: &mut Src, not_in_pair: usize) -> AssetInfo {
     let all = w.all_assets();
     let cands: Vec<AssetId> = all.into_iter().filter(|a| !w.pairs[not_in_pair].assets.contains(a)).collect();
@@ -298,11 +306,17 @@ pub fn gen_provide(w: &World, s: &mut Src, prof: &Profile) -> Step {
         assets.swap(0, 1);
     }
     if s.below(16) < prof.adversarial_16 {
-        match s.below(4) {
+        match s.below(5) {
             0 => assets[1].info = other_asset(w, s, p),
             1 => assets[1] = assets[0].clone(),
             2 => assets[0].amount = Uint128::zero(),
-            _ => assets[0].info = other_asset(w, s, p),
+            3 => assets[0].info = other_asset(w, s, p),
+            _ => {
+                // the same spelling under the other asset KIND: a native side named as a cw20 "contract", a
+                // cw20 side named as a native denom (a different asset in both cases)
+                let i = s.idx(2);
+                assets[i].info = flip_kind(&assets[i].info);
+            }
         }
     }
     let named: Vec<(String, u128)> = assets
@@ -365,8 +379,26 @@ pub fn gen_swap_exec(w: &World, s: &mut Src, prof: &Profile) -> Step {
         delivered.push((denom.clone(), amt));
     }
     if s.below(16) < prof.adversarial_16 {
-        match s.below(6) {
+        match s.below(7) {
             0 => offer.info = pr.infos[1 - side].clone(), // names the other pair asset, delivers this one
+            6 => {
+                // names - and, where the actor holds such a coin, delivers - the native denom spelled like one
+                // of the pair's cw20 assets: a different asset that must not be priced as that token
+                if let Some(tok) = pr.infos.iter().find(|a| !a.is_native_token()) {
+                    let alias = flip_kind(tok);
+                    let bal = w.balance(&alias, &actor);
+                    offer.info = alias.clone();
+                    if bal > 0 {
+                        let a = amount(s, bal.min(amt.max(1).saturating_mul(4))).max(1);
+                        offer.amount = Uint128::new(a);
+                        if let AssetInfo::NativeToken { denom } = &alias {
+                            delivered = vec![(denom.clone(), a)];
+                        }
+                    }
+                } else {
+                    offer.info = other_asset(w, s, p);
+                }
+            }
             1 => offer.info = other_asset(w, s, p),
             2 => offer.amount = Uint128::new(amt.saturating_add(1)),
             3 => offer.amount = Uint128::new(amt.saturating_sub(1)),
